@@ -15,6 +15,7 @@ import re
 import string as string_module
 import sys
 
+import c19_regex
 import gal
 import yaql
 from yaql.language import exceptions as yexc
@@ -44,7 +45,7 @@ EXPLANATION = ("proofs of the documented meaning on the Gallina model of the str
 LEVEL_NOTE = "re matching itself and case mapping are oracles; everything yaql adds on top is modelled"
 ALLOWED_AXIOMS = []
 
-HEADER = "From YV Require Import Model.Strings Model.Regex."
+HEADER = "From YV Require Import Model.Strings Model.Regex Model.RegexEngine."
 HERE = os.path.dirname(os.path.dirname(os.path.dirname(os.path.abspath(__file__))))
 
 _engine = None
@@ -665,8 +666,34 @@ def nontrivial(call, obs):
 NAMES = ["x", "y", "zz", "w_1"]
 
 
+def star_height(t):
+    """Nesting depth of unbounded repeats in a parsed pattern (c19_regex tree)."""
+    k = t[0]
+    if k == "rep":
+        return star_height(t[1]) + (1 if t[3] is None else 0)
+    if k in ("seq", "alt"):
+        return max(star_height(t[1]), star_height(t[2]))
+    if k == "grp":
+        return star_height(t[2])
+    return 0
+
+
 def gen_pattern(rng, depth, names):
-    """A random pattern over {a,b,c}; `names` is the list of still unused group names."""
+    """A random pattern over {a,b,c}; `names` is the list of still unused group names.  Patterns whose
+    unbounded repeats nest more than 2 deep are redrawn: CPython's re (and any backtracking matcher) can need
+    minutes on them even for 8-character subjects."""
+    while True:
+        saved = list(names)
+        pat = gen_pattern_raw(rng, depth, names)
+        try:
+            if star_height(c19_regex.parse(pat)[0]) <= 2:
+                return pat
+        except c19_regex.Unmodelled:
+            return pat
+        names[:] = saved
+
+
+def gen_pattern_raw(rng, depth, names):
     def atom(d):
         r = rng.random()
         if d <= 0 or r < 0.4:
@@ -1011,6 +1038,51 @@ def lazy_family():
     return out
 
 
+def engine_modelled(rc):
+    """The pattern is in the language of Model/RegexEngine.v and the subject is ASCII (case folding)."""
+    return rc["s"].isascii() and c19_regex.modelled(rc["pat"])
+
+
+def eop_term(rc):
+    fn = rc["fn"]
+    keys = None if rc.get("keys") is None else gal.lst(key_term(k) for k in rc["keys"])
+    if fn == "matches":
+        return "EMatches"
+    if fn == "search":
+        return "(ESearch %s)" % gal.opt(keys)
+    if fn == "searchAll":
+        return "(ESearchAll %s)" % gal.opt(keys)
+    if fn in ("searchLazy", "searchAllLazy"):
+        sel = rc["sel"]
+        st = ("(LValue %s %s)" % (key_term(sel[1]), gal.nat(sel[2])) if sel[0] == "value" else
+              "(LSpan %s)" % key_term(sel[1]) if sel[0] == "span" else "(LWhere %s %s)" % (key_term(sel[1]), gal.z(sel[2])))
+        if fn == "searchLazy":
+            return "(ESearchLazy %s)" % st
+        cons = {"plain": "CPlain", "toList": "CToList", "reverse": "CReverse", "take1": "CTake1", "skip1": "CSkip1"}[rc["cons"]]
+        return "(ESearchAllLazy %s %s)" % (st, cons)
+    if fn == "replaceBy":
+        items = gal.lst("(ILit %s)" % gal.s(it[1]) if it[0] == "lit" else
+                        "(IJoin %s %s)" % (key_term(it[1]), gal.nat(it[2])) if it[0] == "join" else
+                        "(IVal %s)" % key_term(it[1]) for it in rc["items"])
+        return "(EReplaceBy %s %s)" % (items, gal.z(rc["count"]))
+    if fn == "replace":
+        return "(EReplaceLit %s %s)" % (gal.s(rc["repl"]), gal.z(rc["count"]))
+    if fn == "split":
+        return "(ESplit %s)" % gal.z(rc["count"])
+    raise ValueError(fn)
+
+
+def ecase_term(rc, obs):
+    return "{| ec_fl := %s; ec_p := %s; ec_s := %s; ec_op := %s; ec_obs := %s |}" % (
+        c19_regex.flags_term(rc["flags"]), c19_regex.pattern_term(rc["pat"]), gal.s(rc["s"]), eop_term(rc), rres_term(obs))
+
+
+def mcase_term(pat, flags, s):
+    ms = [mrec(m) for m in re.compile(pat, flags_of(*flags)).finditer(s)]
+    return "{| mc_fl := %s; mc_p := %s; mc_s := %s; mc_obs := %s |}" % (
+        c19_regex.flags_term(flags), c19_regex.pattern_term(pat), gal.s(s), gal.lst(mrec_term(m) for m in ms)), ms
+
+
 def random_regex_call(rng, pat=None, s=None):
     names = list(NAMES)
     if pat is None:
@@ -1099,7 +1171,7 @@ def judge_string(rep, call, obs, model_says=None, source="C"):
         rep.add("mismatch", "%s: Model/Strings.v and strings.py disagree (the twin agrees with the implementation)" % call[0], data)
 
 
-def judge_regex(rep, rc, ms, obs, source="C"):
+def judge_regex(rep, rc, ms, obs, source="C", engine=False):
     req = ref_regex(rc, ms)
     e, d = regex_expr(rc)
     named = any(m["named"] for m in ms)
@@ -1110,7 +1182,8 @@ def judge_regex(rep, rc, ms, obs, source="C"):
             rc["fn"], " with named groups" if named else "",
             "raises" if obs[0] == "foreign" else "wrong value"), data)
     else:
-        rep.add("mismatch", "regex %s: Model/Regex.v and regex.py disagree (the twin agrees with the implementation)" % rc["fn"], data)
+        rep.add("mismatch", "regex %s: %s and regex.py disagree (the twin agrees with the implementation)" % (
+            rc["fn"], "Model/RegexEngine.v + Model/Regex.v" if engine else "Model/Regex.v"), data)
 
 
 # ---------------------------------------------------------------------------------
@@ -1205,10 +1278,53 @@ def correspondence(run):
         run.count("obs:" + obs[0])
         if i % 701 == 5:
             run.sample({"regex_call": rc, "observed": list(obs)})
-        terms.append("(%s, %s)" % (rcall_term(rc, ms), rres_term(obs)))
         meta.append((rc, ms, obs))
-    for i in run.coq_mismatches(HEADER, "rcase", "rcase_ok", terms, shard=250):
-        judge_regex(rep, *meta[i])
+    # patterns of the modelled language run on the Gallina engine (Model/RegexEngine.v): yaql's result is compared
+    # with the model of yaql ON TOP OF the modelled engine (ecase), and the engine with CPython's re on the same
+    # pattern x flags x subject (mcase).  Other patterns - and cases on which the engine's fuel did not suffice -
+    # stay with re as an oracle (rcase).
+    oracle_idx, engine_idx, triples = [], [], {}
+    for i, (rc, ms, obs) in enumerate(meta):
+        if engine_modelled(rc):
+            engine_idx.append(i)
+            triples.setdefault((rc["pat"], tuple(rc["flags"]), rc["s"]), None)
+            run.count("regex.engine-modelled")
+        else:
+            oracle_idx.append(i)
+            run.count("regex.oracle-only")
+            if len(run.cov["uncovered"]) < 12 and not c19_regex.modelled(rc["pat"]):
+                run.cov["uncovered"].append("pattern outside the modelled regex language (re oracle used): %r" % rc["pat"])
+    eterms = [ecase_term(meta[i][0], meta[i][2]) for i in engine_idx]
+    bad = [engine_idx[j] for j in run.coq_mismatches(HEADER, "ecase", "ecase_ok", eterms, shard=250)]
+    if bad:
+        nofuel = set(bad[j] for j in run.coq_mismatches(HEADER, "ecase", "ecase_fuel_ok",
+                                                      [ecase_term(meta[i][0], meta[i][2]) for i in bad], shard=250))
+        for i in bad:
+            if i in nofuel:
+                run.cov["skipped"] += 1
+                run.count("regex.engine-out-of-fuel")
+                oracle_idx.append(i)
+            else:
+                judge_regex(rep, *meta[i], engine=True)
+    oterms = ["(%s, %s)" % (rcall_term(meta[i][0], meta[i][1]), rres_term(meta[i][2])) for i in oracle_idx]
+    for j in run.coq_mismatches(HEADER, "rcase", "rcase_ok", oterms, shard=250):
+        judge_regex(rep, *meta[oracle_idx[j]])
+    tl = sorted(triples)
+    mterms, mms = [], []
+    for pat, flags, s in tl:
+        t, ms = mcase_term(pat, flags, s)
+        mterms.append(t)
+        mms.append(ms)
+    run.count("regex.engine-vs-re triples", len(tl))
+    mbad = run.coq_mismatches(HEADER, "mcase", "mcase_ok", mterms, shard=250)
+    if mbad:
+        nofuel = set(mbad[j] for j in run.coq_mismatches(HEADER, "mcase", "mcase_fuel_ok", [mterms[i] for i in mbad], shard=250))
+        for i in mbad:
+            if i in nofuel:
+                run.cov["skipped"] += 1
+                continue
+            rep.add("mismatch", "Model/RegexEngine.v and CPython's re find different matches for a pattern of the modelled language",
+                    {"kind": "engine", "pattern": tl[i][0], "flags": list(tl[i][1]), "subject": tl[i][2], "matches_from_re": mms[i]})
     rep.flush()
 
 
@@ -1345,7 +1461,17 @@ def replay(run, data):
         log_replay(d["expression"], d["data"], obs, req)
         if tuple(req) != tuple(obs):
             return False
-        return not run.coq_mismatches(HEADER, "rcase", "rcase_ok", ["(%s, %s)" % (rcall_term(rc, ms), rres_term(obs))])
+        if run.coq_mismatches(HEADER, "rcase", "rcase_ok", ["(%s, %s)" % (rcall_term(rc, ms), rres_term(obs))]):
+            return False
+        if engine_modelled(rc):
+            t = [ecase_term(rc, obs)]
+            return not run.coq_mismatches(HEADER, "ecase", "ecase_ok", t) or bool(run.coq_mismatches(HEADER, "ecase", "ecase_fuel_ok", t))
+        return True
+    if kind == "engine":
+        t, ms = mcase_term(d["pattern"], tuple(d["flags"]), d["subject"])
+        print("replay: engine vs re on %r flags=%r subject=%r; re finds %r" % (d["pattern"], d["flags"], d["subject"],
+                                                                              [m["whole"] for m in ms]), flush=True)
+        return not run.coq_mismatches(HEADER, "mcase", "mcase_ok", [t])
     raise ValueError("unknown replay kind %r" % kind)
 
 
